@@ -32,7 +32,7 @@ class C06(props.BaseProp):
     id = "C06"
     run_module = "Run.RunCloseness"
     harness_mode = "cent"
-    quick_n, thorough_n = 700, 12000
+    quick_n, thorough_n = 1500, 15000
     shards = 12
     rule = ("graphs handed to new_from_nodes_and_edges: 0-8 nodes (integer names whose sort order differs from "
             "insertion order; isolated nodes; nodes created only by edges), 0..2n+1 edges, directed/undirected x "
@@ -139,8 +139,21 @@ class C06(props.BaseProp):
 
 P = props.register(C06())
 P.manifest = {
-    "text": 'VERIFIED CHECKER, unbounded soundness theorems (axiom-free): check_dist a s d = true => d holds the true shortest distance from s for every node (None = unreachable), for any adjacency with integer costs; check_transpose sound; searching the transposed adjacency yields incoming distances; the formula stage of get_node_centrality is proved exactly ((r-1)/tot, x (r-1)/(n-1) with wf_improved, 0 when r<=1 or n<=1, never panics); combined: the value the model reports for a node whose distance list passed the checks IS the closeness (incoming distances) of that node; one entry per node. The Run module evaluates both checkers for every source of every generated graph (observations 62, 63).',
-    "note": "The correctness of the model's own BFS/Dijkstra loops is established per case by the verified checker, not by a loop invariant proof (see Properties/C06.v header). Trusted: Coq kernel + vm_compute; harness/printers/diff; modelled not verified: IEEE rounding, IntSet/IntMap iteration order (only sum and length of the result list are used), BinaryHeap ties (first/last oracle, observation 61), rayon collect. reverse() is the transcription of Model/Derived.v; that its adjacency is the transpose is checked per case (63). Axioms: none.",
-    "technique": "Coq proof (formula stage, verified distance checker) + differential correspondence vs vm_compute "
-                 "model + independent definitional oracle on the implementation",
+    "text": "HOP-COUNT MODE: the model's own level-synchronous BFS is proved correct by loop invariant for every graph "
+            "and source (returns exactly the reachable nodes, each once, with their hop distances; fuel never exhausted) and, "
+            "with the exactly proved formula stage of get_node_centrality ((r-1)/tot, x (r-1)/(n-1) with wf_improved, 0 when "
+            "r<=1 or n<=1, never panics), the value reported is the closeness (C06_bfs_distances, C06_hop_count_closeness, "
+            "C06_hop_count_model_value). BOTH MODES, VERIFIED CHECKER: check_dist a s d = true => d holds the true "
+            "shortest distances from s (any integer-cost adjacency, any vector); check_transpose sound; searching the "
+            "transposed adjacency yields INCOMING distances; the value computed from a checked distance list is the "
+            "closeness of the node (C06_checked, C06_model_value_checked); one entry per node. The Run module evaluates "
+            "both checkers for every source of every generated graph (observations 62, 63). All unbounded, axiom-free.",
+    "note": "Still per-case only: the weighted (heap) search loop - its output passes the verified checker on every case, "
+            "but the loop invariant is not proved - and that `reverse()` (Model/Derived.v transcription) yields the "
+            "transposed adjacency / that an undirected adjacency is symmetric (observation 63; state-level facts of "
+            "C15/C01). Trusted: Coq kernel + vm_compute; harness/printers/diff; modelled not verified: IEEE rounding, "
+            "IntSet/IntMap iteration order (only sum and length of the result list are used), BinaryHeap ties (first/last "
+            "oracle, observation 61), rayon collect. Axioms: none.",
+    "technique": "Coq proof (BFS loop invariant, formula stage, verified distance checker) + differential correspondence "
+                 "vs vm_compute model + independent definitional oracle on the implementation",
 }
